@@ -13,6 +13,8 @@
 import Model.Stream
 import Proofs.Stream
 import Proofs.ScannerLimit
+import Proofs.FlowTieStream
+import Proofs.FlowTieImport
 
 namespace Jl.C08
 open Jl Jl.Scanner Jl.Stream
@@ -144,5 +146,19 @@ theorem scanner_error_is_sticky (i m : Nat) (e : ScanErr) (fuels : List Nat) (s 
     errOf (ScannerLimit.scans i m fuels s).2 = some e ∧ (ScannerLimit.scans i m fuels s).2.script = s.script ∧
     ScannerLimit.tokensOf (ScannerLimit.scans i m fuels s).1 <+: specLines s.buf :=
   ScannerLimit.too_long_is_sticky i m e fuels s h
+
+
+/-! ### Where a failure goes, read from the source (Proofs/FlowTieStream, Proofs/FlowTieImport) -/
+
+/-- As written today: `GetRow` looks at the scanner's error before parsing; `Importer.Err` is the
+    scanner's error; after the loop `Stream` hands that error to the processor and returns what
+    the processor returns; `Export` makes one `Write` and wraps its error. -/
+theorem failure_path_is_the_source :
+    Gen.flowTable.getRow = .scannerErrThenParse .nil .wrapped ∧
+    Gen.flowTable.importerErr = .scannerErr ∧
+    Gen.flowTable.stream = FlowSpec.expectedFlow.stream ∧
+    Gen.flowTable.newImporter = .scanner 0 Gen.initialBufferSize Gen.maximumBufferSize :=
+  ⟨FlowTie.getRow_as_modelled, FlowTie.err_as_modelled, FlowTie.stream_as_modelled,
+   FlowTie.scanner_sizes.1⟩
 
 end Jl.C08
